@@ -133,7 +133,7 @@ class Engine(Interp):
                     return (h, cw(v[1]), pos(v[2]), pos(v[3]), pos(v[4]))
                 if h == 'opqit' and len(v) == 5:
                     return (h, cw(v[1]), v[2], pos(v[3]), pos(v[4]))
-                if h == 'boolc':
+                if h == 'boolc' and len(v) == 2:
                     return ('boolc', ccond(v[1]))
                 if h == 'aff' and len(v) == 3:
                     return ('aff', tuple(sorted(((anyterm(t), c) for t, c in v[1]), key=lambda x: x[0].name)), v[2])
@@ -885,11 +885,52 @@ class Engine(Interp):
         return bool(eff.get('unwind') or eff.get('user') or eff.get('dyn') or eff.get('opaque')
                     or eff.get('errors'))
 
+    def plain_eq(self, st, a, b, depth=0):
+        """structural == of two plain-data values -> TRUE / FALSE / ('boolc', cond) / None (not plain data, or not
+        expressible as one condition)"""
+        for _ in range(4):
+            if a[0] == 'ref' and a[2][0] in ('L', 'O'):
+                a = self.load(st, a[2], quiet=True)
+            if b[0] == 'ref' and b[2][0] in ('L', 'O'):
+                b = self.load(st, b[2], quiet=True)
+        if depth > 4:
+            return None
+        if a[0] in ('int', 'slen') and b[0] in ('int', 'slen'):
+            r = self.compare(st, 'Eq', a, b)
+            return r if r[0] in ('bool', 'boolc') else None
+        if a[0] == 'adt' and b[0] == 'adt' and a[1] == b[1] == OPTION:
+            if a[2] != b[2]:
+                return FALSE
+            if a[2] == 0:
+                return TRUE
+            return self.plain_eq(st, a[3][0], b[3][0], depth + 1)
+        if a[0] == 'tuple' and b[0] == 'tuple' and len(a[1]) == len(b[1]):
+            parts = [self.plain_eq(st, x, y, depth + 1) for x, y in zip(a[1], b[1])]
+            if any(p is None for p in parts):
+                return None
+            if any(p == FALSE for p in parts):
+                return FALSE
+            open_ = [p for p in parts if p != TRUE]
+            if not open_:
+                return TRUE
+            if len(open_) == 1:
+                return open_[0]
+            return None
+        return None
+
     def user_call(self, st, fid, t, args, dest_ty, name=None):
         """a call into user code: arbitrary result, may unwind, may call back closures it was given"""
         callee = t['callee']
         nm = name or callee.get('s') or callee['def']
         eff = t['effects']
+        if callee['def'] in ('core::cmp::PartialEq::eq', 'core::cmp::PartialEq::ne') and len(args) == 2:
+            # `==` between plain data (integers, lengths, Options and tuples of them: size hints, indices) is core's
+            # own structural comparison, not user code
+            r = self.plain_eq(st, args[0], args[1])
+            if r is not None:
+                if callee['def'].endswith('::ne'):
+                    r = FALSE if r == TRUE else (TRUE if r == FALSE else ('boolc', ('Not', r[1])))
+                return [('ret', st, r)]
         if any(self.sensitive(st, a) for a in args):
             self.check_exposed(st, args, nm)
         cls = []
